@@ -37,6 +37,16 @@ class V(metaclass=TrueSingleton):
         if not args:
             raise ValueError("V needs a positional argument")
         LOG.append(("V", self, args, kwargs))
+COUNT = []
+class N(metaclass=TrueSingleton):
+    """its __init__ keeps no reference to the instance anywhere (callers may drop it)"""
+    def __init__(self, *args, **kwargs):
+        COUNT.append(args)
+class Rz(metaclass=TrueSingleton):
+    """its __init__ starts from a clean slate: it clears every singleton (a callback into the library during construction)"""
+    def __init__(self, *args, **kwargs):
+        clear_true_singleton()
+        LOG.append(("Rz", self, args, kwargs))
 def _twin(tag):
     def __init__(self, *args, **kwargs):
         LOG.append((tag, self, args, kwargs))
@@ -85,10 +95,69 @@ def run(ctx):
                 tcls = "falsy-instance-class" if t0 == "F" else ("same-name-twin" if t0 in ("S1", "S2") else ("subclass" if t0 == "B" else ("parent-of-live-subclass" if t0 == "A" and "B" in live else "plain")))
                 cls = f"op={seq[0][0]},target-live={t0 in live if t0 else 'n/a'},target={tcls},others-live={len([c for c in live if c != t0]) > 0}"
                 res.violation("TABLE-STEP", qual, cls, f"live instances {list(live)}, operations {seq}: {why}", replay=replay(live, seq))
+    for name, fn_ in (("instance-dropped-by-the-caller", unreferenced), ("constructor-clears-all-singletons", reentrant_clear)):
+        try:
+            why = fn_(h)
+        except Unknown as u:
+            res.ob(False)
+            res.undecide(f"{name}: {u}")
+            continue
+        n += 1
+        res.ob(why is None, sig=(name,))
+        if why:
+            res.violation("TABLE-STEP", MOD + ".TrueSingleton.__call__", name, why)
     res.rule("TABLE-STEP", n)
     common.vacuity(res, "TABLE-STEP", 800)
     res.analysed = common.analysed(ctx, [MOD + ".clear_true_singleton", MOD + ".TrueSingleton.__call__"])
     res.explanation = "Every operation maps every reachable table state to the model's table state; induction gives the statement for all interleavings."
+
+
+def _load(h):
+    h.reset()
+    m = h.w.load_text("verif_c18", SRC)
+    h.w.mods.pop("verif_c18", None)
+    h.settle()
+    h.gc_reset()
+    return m.globals
+
+
+def unreferenced(h):
+    """the caller does not keep what the constructor returned: the period still has one instance and one __init__ run"""
+    g = _load(h)
+    roots = [g]           # the harness module's globals (classes, COUNT); the returned instances are deliberately not roots
+    h.gc_step(roots)
+    for i in range(3):
+        o = h.call(g["N"], Tok(300 + i, f"arg{i}"))
+        if o.kind != "return":
+            return f"N(arg{i}) raises {o.excname}"
+        del o
+        h.gc_step(roots)
+    k = len(g["COUNT"].items)
+    if k != 1:
+        return (f"N(arg0); N(arg1); N(arg2) without keeping the result, no clear in between: __init__ ran {k} times (with {[str(x.items[0]) for x in g['COUNT'].items]}); "
+                "all constructions between two clears are one object and __init__ runs once with the first call's arguments")
+    return None
+
+
+def reentrant_clear(h):
+    g = _load(h)
+    log = g["LOG"]
+    a1 = h.call(g["A"], 1)
+    r1 = h.call(g["Rz"], 1)
+    if a1.kind != "return" or r1.kind != "return":
+        return f"A(1) / Rz(1) give {a1!r} / {r1!r}"
+    n0 = len(log.items)
+    r2 = h.call(g["Rz"], 2)
+    if r2.kind != "return" or r2.value is not r1.value or len(log.items) != n0:
+        return (f"Rz's __init__ clears all singletons; after Rz(1) a second Rz(2) gives {r2!r} ({'ran __init__ again' if len(log.items) != n0 else 'another object'}): the period that began with "
+                "the clear inside the first construction has one instance")
+    a2 = h.call(g["A"], 2)
+    if a2.kind != "return" or a2.value is a1.value:
+        return f"A was cleared by Rz's constructor, yet A(2) gives {a2!r} (the instance from before the clear)"
+    a3 = h.call(g["A"], 3)
+    if a3.kind != "return" or a3.value is not a2.value:
+        return f"A(3) after A(2) gives {a3!r}, not the live instance"
+    return None
 
 
 def evaluate(h, live, seq):
